@@ -1,1 +1,2 @@
 pub mod program;
+pub mod loops;
